@@ -76,7 +76,9 @@ def make_case(rng, nodes, imps, pool=None, force_kinds=None):
     lops = layer_rule_ops(verb, imp, exc, subj, objs, anything, obj_as_list=rng.random() < 0.6)
     spec = {"lv": verb, "ld": "i" if imp else "b", "lx": "1" if exc else "0", "lsub": subj,
             "lobj": [] if anything else objs, "la": "1" if anything else "0"}
-    return {"nodes": nodes, "imps": imps, "arch": arch, "lops": lops, "spec": spec,
+    # now and then the architecture object receives its last layer(s) only after the rule has been started on it
+    late = rng.randint(1, len(arch) - 1) if rng.random() < 0.15 else 0
+    return {"nodes": nodes, "imps": imps, "arch": arch, "lops": lops, "spec": spec, "late": late,
             "_subject_mods": next(ms for n, _, ms in layers if n == subj)}
 
 
